@@ -22,6 +22,7 @@ static bool fail_sticky, fail_armed;
 static bool in_run;
 
 uint64_t alloc_count() { return seq - run_seq0; }
+uint64_t block_seq(void *p) { auto it = ledger.find(p); return it == ledger.end() ? 0 : it->second.seq; }
 bool debug_mode_on = false;
 // In debug mode libevent keeps one 24-byte map entry per event it has seen until
 // libevent_global_shutdown(); a few internal events (signalfd helper events, once-events freed
